@@ -61,7 +61,7 @@ def _table(run, rule, fi, flow, ps, cases, label_of, expect, stop_label="reaches
             run.ok(rule, construct, "outcome `%s`" % want, fi.loc())
 
 
-def validators(run, model):
+def validators(run, model, rule_call="C19.reserved-call", rule_result="C19.result-old"):
     # ---- call-time: reserved keyword names
     for role, ck in gates.checkers(model).items():
         ev = ck.kwargs_validator
@@ -76,7 +76,7 @@ def validators(run, model):
         for a in (False, True):
             for k in (False, True):
                 cases.append({"a": a, "k": k, "eval": membership_eval({("_ARGS", kp): a, ("_KWARGS", kp): k})})
-        _table(run, "C19.reserved-call", fi, flow, ps, cases, lambda c: "_ARGS %s, _KWARGS %s" % ("given" if c["a"] else "absent", "given" if c["k"] else "absent"), lambda c: "return TypeError" if (c["a"] or c["k"]) else "return None")
+        _table(run, rule_call, fi, flow, ps, cases, lambda c: "_ARGS %s, _KWARGS %s" % ("given" if c["a"] else "absent", "given" if c["k"] else "absent"), lambda c: "return TypeError" if (c["a"] or c["k"]) else "return None")
     # ---- call-time: result / OLD with postconditions
     for role, ck in gates.checkers(model).items():
         ev = ck.resolved_validator
@@ -96,7 +96,7 @@ def validators(run, model):
                             return post
                         return None
                     cases.append({"post": post, "r": r, "o": o, "eval": membership_eval({("result", mp): r, ("OLD", mp): o}, extra)})
-        _table(run, "C19.result-old", fi, flow, ps, cases, lambda c: "postconditions %s, result %s, OLD %s" % ("present" if c["post"] else "absent", "bound" if c["r"] else "free", "bound" if c["o"] else "free"), lambda c: "return TypeError" if (c["post"] and (c["r"] or c["o"])) else "return None")
+        _table(run, rule_result, fi, flow, ps, cases, lambda c: "postconditions %s, result %s, OLD %s" % ("present" if c["post"] else "absent", "bound" if c["r"] else "free", "bound" if c["o"] else "free"), lambda c: "return TypeError" if (c["post"] and (c["r"] or c["o"])) else "return None")
 
 
 def reserved_def(run, model, rule="C19.reserved-def"):
